@@ -230,7 +230,7 @@ def r4_rejections(ctx, A):
         ctx.ok("C03.R4", "ignore-rows", detail={"rows": n})
 
 
-def r6_order(ctx, A):
+def r6_order(ctx, A, rule="C03.R6"):
     """no reordering / removing method on any container of Range<u64> anywhere in the crate"""
     allowed = {"push", "new", "is_empty", "len", "iter", "deref", "index", "into_vec", "clone", "with_capacity",
                "as_slice", "into_iter", "next", "try_fold", "drop", "eq", "fmt", "as_ref", "borrow", "first", "last", "get",
@@ -248,11 +248,11 @@ def r6_order(ctx, A):
         n += 1
         m = method_name(t["callee"])
         if m not in allowed:
-            ctx.violation("C03.R6", "C03.R6|%s|%s" % (b["name"], m),
+            ctx.violation(rule, rule + "|%s|%s" % (b["name"], m),
                           "method `%s` on a list of resolved ranges can reorder/drop elements (request order must be preserved)" % m,
                           where=F.loc(t["span"]))
-    ctx.ok("C03.R6", "range-list methods", detail={"call_sites": n})
-    ctx.floor("C03.R6", n, 4, what="method calls on range lists")
+    ctx.ok(rule, "range-list methods", detail={"call_sites": n})
+    ctx.floor(rule, n, 4, what="method calls on range lists")
 
 
 def run(ctx):
